@@ -220,7 +220,6 @@ func (sl *SignalLayout) verifyBeforeInsert(sig Signal, startBit int) error {
 	}
 
 	sigSize := sig.GetSize()
-	endBit := startBit + sigSize
 
 	if sigSize > sl.size {
 		return &SignalSizeError{
@@ -229,12 +228,15 @@ func (sl *SignalLayout) verifyBeforeInsert(sig Signal, startBit int) error {
 		}
 	}
 
-	if endBit > sl.size {
+	// compare without adding, startBit + sigSize may overflow
+	if startBit > sl.size-sigSize {
 		return &SignalSizeError{
 			Size: sigSize,
 			Err:  ErrNoSpaceLeft,
 		}
 	}
+
+	endBit := startBit + sigSize
 
 	for _, tmpSig := range sl.signals {
 		tmpStartBit := tmpSig.GetRelativeStartPos()
@@ -502,7 +504,7 @@ func (sl *SignalLayout) shiftLeft(sigID EntityID, amount int) int {
 		return 0
 	}
 
-	perfShift := amount
+	perfShift := 0
 	var prevSig Signal
 
 	for idx, tmpSig := range sl.signals {
@@ -543,7 +545,13 @@ func (sl *SignalLayout) shiftRight(sigID EntityID, amount int) int {
 		return 0
 	}
 
-	perfShift := amount
+	// the signal can never move further than the size of the layout,
+	// clamping avoids the overflow of startBit + amount
+	if amount > sl.size {
+		amount = sl.size
+	}
+
+	perfShift := 0
 	var nextSig Signal
 
 	for idx, tmpSig := range sl.signals {
